@@ -470,6 +470,7 @@ func refusalC04(w *h.Worker, b *h.Built, st *trie.SlimTrie) *h.Viol {
 func runC04(r *h.Run) {
 	p := defaultProfile()
 	p.noOptArg = true
+	p.manyLate = true
 	p.quickIDk, p.quickScafK = 3, 2
 	p.thoroughIDk, p.thoroughScafK = 5, 2
 	p.u85k, p.shiftScafK = 2, 1 // the scan oracle costs about 10x a lookup oracle per trie
